@@ -13,7 +13,11 @@
    D. one induction over the three classes of Spec/MiniGo.v: every decoration of the built tree
       renders (CanonProofs: chain) to a text that is a piece (TokensProofs) with the tokens of
       the undecorated program;
-   E. declarations, the file; the comment texts are written. *)
+   E. declarations, the file; the comment texts are written.
+   Types (all_Qt, by [ty_ind']) are decorated inside struct{ } and interface{ } wherever they
+   stand - parameters, results, receivers, var specs, literal types, assertions, type-switch
+   cases; func_tail takes the head of a func already decorated and moves the case-block
+   context across the decoration (case_ctx_dec).  A Dict is never decorated (qe_keyed). *)
 From Jen Require Import Base.Bytes Base.Num GoStd.Quote GoStd.Tokens Gen.Goroot Gen.Tables.
 From Jen Require Import Model.Code Model.Naming Model.Render Model.FileRender Model.Exec.
 From Jen Require Import Spec.MiniGo Spec.MiniGoTokens Spec.MiniGoComments.
@@ -317,6 +321,8 @@ Section Main.
     match c with
     | CCase e es body => [gCase 0 (map (fun a => CStmt (bexpr a)) (e :: es)); gBlock 1 (map (fun s => CStmt (bstmt s)) body)]
     | CDefault body => [kw (S "Default"); gBlock 1 (map (fun s => CStmt (bstmt s)) body)]
+    | CComm s body => [gCase 0 [CStmt (bstmt s)]; gBlock 1 (map (fun s => CStmt (bstmt s)) body)]
+    | CType t ts body => [gCase 0 (map (fun a => CStmt (bty a)) (t :: ts)); gBlock 1 (map (fun s => CStmt (bstmt s)) body)]
     end.
   Definition Qc (c : clause) : Prop := clause_ok c = true -> R cfg (clause_items c) (tclause c).
 
@@ -325,10 +331,12 @@ Section Main.
 
   (* rewriting the rows of the table in a hypothesis *)
   Ltac tbl H :=
-    unfold empty in H; unfold bparams, MiniGo.id, op in H;
+    unfold empty in H; unfold bsig, bsig_with, bparams, bparams_with, bresults, bresults_with, MiniGo.id, op in H;
     rewrite ?(kw_True Htab), ?(kw_False Htab), ?(kw_Nil Htab), ?(kw_Func Htab), ?(kw_Else Htab),
       ?(kw_Default Htab), ?(kw_Break Htab), ?(kw_Continue Htab), ?(kw_Go Htab), ?(kw_Defer Htab),
       ?(kw_Var Htab), ?(kw_Const Htab), ?(kw_Type Htab), ?(kw_Range Htab),
+      ?(kw_Chan Htab), ?(kw_Goto Htab), ?(kw_Fallthrough Htab), ?(kw_Select Htab),
+      ?(gStruct_eq Htab), ?(gInterface_eq Htab), ?(gAssert_eq Htab),
       ?(gCall_eq Htab), ?(gIndex_eq Htab), ?(gParens_eq Htab), ?(gValues_eq Htab), ?(gParams_eq Htab),
       ?(gList_eq Htab), ?(gMap_eq Htab), ?(gReturn_eq Htab), ?(gIf_eq Htab), ?(gFor_eq Htab),
       ?(gSwitch_eq Htab), ?(gCase_eq Htab), ?(gBlock_eq Htab), ?(gDefs_eq Htab) in H.
@@ -341,6 +349,7 @@ Section Main.
         apply Forall2_app_inv_l in H; let a := fresh "la" in let b := fresh "lb" in
         destruct H as (a & b & ? & ? & ->)
     | H : dec (CTok _) _ |- _ => apply dec_tok_inv in H; subst
+    | H : dec (CTag _) _ |- _ => inversion H; subst; clear H
     | H : dec (CStmt _) _ |- _ => apply dec_stmt_inv in H; let l := fresh "ls" in destruct H as (l & -> & ?)
     | H : dec (CGroup _ _ _ _ _ false _) _ |- _ =>
         apply dec_flat_inv in H; let l := fresh "lg" in destruct H as (l & -> & ?)
@@ -357,23 +366,293 @@ Section Main.
     | H : Forall2 dec (bstmt x) ?l |- _ => destruct (IH ltac:(assumption) l H) as p; clear H
     end.
 
-  (* ---- flat parts: types, parameters *)
-  Lemma bty_flat t : forallb flatc (bty t) = true.
+  Tactic Notation "uset" constr(IH) constr(x) "as" simple_intropattern(p) :=
+    match goal with
+    | H : Forall2 dec (bty x) ?l |- _ => destruct (IH ltac:(assumption) l H) as p; clear H
+    end.
+
+  Lemma leaf_chain c x : cfree c x -> chain cfg [c] x.
+  Proof. apply one_free. Qed.
+
+  (* ---- the lines of a multi-line group between `{` and `}` *)
+  Lemma braces_free bxs tks : pieceN (lines bxs) (concat tks) -> (bxs = [] -> tks = []) ->
+    lfree (braces bxs) (tbraces tks).
   Proof.
-    induction t as [n|t IH|t IH|k IHk v IHv]; cbn [bty]; unfold MiniGo.id, op;
-      rewrite ?(gIndex_eq Htab), ?(gMap_eq Htab); cbn [forallb flatc negb andb];
-      rewrite ?IH, ?IHk, ?IHv; reflexivity.
+    intros HN HE r. unfold braces, tbraces. rewrite <- !app_assoc. rewrite g_fop by in_tac.
+    destruct bxs as [|b bxs].
+    - rewrite (HE eq_refl). cbn [lines map concat_str app concat]. rewrite g_fop by in_tac. lx_done.
+    - rewrite HN by apply bndN_nl. rewrite g_nl. rewrite g_fop by in_tac. lx_done.
   Qed.
 
-  Lemma bparams_flat ps : flatc (bparams ps) = true.
+  Lemma R_nil_tks itss tks : Forall2 (R cfg) itss tks -> itss = [] -> tks = [].
+  Proof. intros H ->. inversion H. reflexivity. Qed.
+
+  Lemma R_of_piece its tk :
+    (forall its', Forall2 dec its its' -> exists x, chain cfg its' x /\ piece x tk) -> R cfg its tk.
   Proof.
-    unfold bparams. rewrite (gParams_eq Htab). cbn [flatc negb andb].
-    induction ps as [|p ps IH]; [reflexivity|]. cbn [map forallb]. rewrite IH, andb_true_r.
-    unfold bparam, MiniGo.id. cbn [flatc forallb]. rewrite bty_flat. reflexivity.
+    intros H its' Hd. destruct (H its' Hd) as (x & Cx & Px). exists x.
+    split; [exact Cx|]. split; [apply piece_pieceN, Px | intros _; exact Px].
   Qed.
 
-  Lemma bresult_flat res : forallb flatc (bresult res) = true.
-  Proof. destruct res as [t|]; [|reflexivity]. cbn [bresult opt_items forallb flatc]. rewrite bty_flat. reflexivity. Qed.
+  (* the texts of result items, each after a blank *)
+  Definition rtext (xs : list str) : str := concat_str (map (fun x => sp ++ x) xs).
+
+  Lemma join_sp_one a xs : join sp (a :: xs) = a ++ rtext xs.
+  Proof.
+    revert a. induction xs as [|x xs IH]; intros a; [cbn; rewrite app_nil_r; reflexivity|].
+    rewrite join_cons2, IH. unfold rtext. cbn [map concat_str]. rewrite <- !app_assoc. reflexivity.
+  Qed.
+
+  Lemma join_sp_app pre0 xs : pre0 <> [] -> join sp (pre0 ++ xs) = join sp pre0 ++ rtext xs.
+  Proof.
+    induction pre0 as [|a rest IH]; intros Hne; [congruence|]. destruct rest as [|b rest].
+    - cbn [app join]. apply join_sp_one.
+    - change ((a :: b :: rest) ++ xs) with (a :: b :: (rest ++ xs)). rewrite !join_cons2.
+      change (b :: rest ++ xs) with ((b :: rest) ++ xs). rewrite IH by discriminate. rewrite <- !app_assoc. reflexivity.
+  Qed.
+
+  (* ---- types: every decoration of the tree of a type (comments inside struct{ } and
+     interface{ }) renders to a piece with the tokens of the type *)
+  Definition Qt (t : ty) : Prop :=
+    ty_ok t = true -> forall l', Forall2 dec (bty t) l' ->
+      exists x, chain cfg l' x /\ piece x (tty t) /\ (forall r, no_eq (x ++ r) = true).
+
+  Definition param_items (p : param) : list code := [MiniGo.id (fst p); CStmt (bty (snd p))].
+  Lemma bparam_items p : bparam p = CStmt (param_items p).
+  Proof. reflexivity. Qed.
+
+  Lemma dec_param_items p : Qt (snd p) -> param_ok p = true ->
+    forall its', Forall2 dec (param_items p) its' -> exists x, chain cfg its' x /\ piece x (tparam p).
+  Proof.
+    destruct p as [n t]. cbn [snd]. intros IH Ho its' Hd. unfold param_ok, param_ok_with in Ho. cbn [fst snd] in Ho.
+    ok_split Ho. unfold param_items, MiniGo.id in Hd. cbn [fst snd] in Hd. dinv. uset IH t as (x & Cx & Px & _).
+    exists (n ++ sp ++ x). split.
+    - eapply chain_eq; [apply (chain_free cfg _ [n; x]); [|discriminate]|reflexivity].
+      constructor; [apply free_tkid|]. constructor; [apply chain_operand, Cx | constructor].
+    - intros r Hr. unfold tparam, tparam_with. cbn [fst snd]. rewrite <- !app_assoc. repeat lx1.
+      rewrite Px by exact Hr. lx_done.
+  Qed.
+
+  Lemma dec_param_list ps : ParamsP Qt ps -> forallb param_ok ps = true ->
+    forall l', Forall2 dec (map bparam ps) l' ->
+    exists xs, Forall2 (good cfg) l' xs /\ Forall2 piece xs (map tparam ps).
+  Proof.
+    induction 1 as [|p ps Hp _ IH]; intros Hoks l' Hd; cbn [map] in Hd.
+    - inversion Hd; subst. exists []. split; constructor.
+    - cbn [forallb] in Hoks. apply andb_true_iff in Hoks. destruct Hoks as [Ho1 Ho2].
+      inversion Hd as [|? c' ? l2 Hc Hd2]; subst. rewrite bparam_items in Hc.
+      apply dec_stmt_inv in Hc. destruct Hc as (le & -> & Hle).
+      destruct (dec_param_items p Hp Ho1 le Hle) as (x & Cx & Px). destruct (IH Ho2 l2 Hd2) as (xs & HF & HP).
+      exists (x :: xs). split; [constructor; [apply chain_good, Cx | exact HF]|]. cbn [map]. constructor; assumption.
+  Qed.
+
+  Lemma dec_params_P ps : ParamsP Qt ps -> forallb param_ok ps = true ->
+    forall c', dec (bparams ps) c' -> exists x, cfree c' x /\ lfree x (tparams ps).
+  Proof.
+    intros Hp Ho c' Hd. unfold bparams, bparams_with in Hd. rewrite (gParams_eq Htab) in Hd.
+    apply dec_flat_inv in Hd. destruct Hd as (lg & -> & Hlg).
+    destruct (dec_param_list ps Hp Ho lg Hlg) as (xs & HF & HP).
+    exists (S "(" ++ join comma xs ++ S ")"). split.
+    - rewrite <- (gParams_eq Htab). apply (free_params cfg Htab _ xs HF).
+    - intros r. unfold tparams, tparams_with. rewrite <- !app_assoc. rewrite g_fop by in_tac.
+      rewrite (Forall2_piece_join xs _ HP) by reflexivity. rewrite g_fop by in_tac. lx_done.
+  Qed.
+
+  Lemma dec_tys res : Forall Qt res -> forallb ty_ok res = true ->
+    forall l', Forall2 dec (map (fun t => CStmt (bty t)) res) l' ->
+    exists xs, Forall2 (good cfg) l' xs /\ Forall2 piece xs (map tty res).
+  Proof.
+    induction 1 as [|t res Ht _ IH]; intros Hoks l' Hd; cbn [map] in Hd.
+    - inversion Hd; subst. exists []. split; constructor.
+    - cbn [forallb] in Hoks. apply andb_true_iff in Hoks. destruct Hoks as [Ho1 Ho2].
+      inversion Hd as [|? c' ? l2 Hc Hd2]; subst. apply dec_stmt_inv in Hc. destruct Hc as (le & -> & Hle).
+      destruct (Ht Ho1 le Hle) as (x & Cx & Px & _). destruct (IH Ho2 l2 Hd2) as (xs & HF & HP).
+      exists (x :: xs). split; [constructor; [apply chain_good, Cx | exact HF]|]. cbn [map]. constructor; assumption.
+  Qed.
+
+  Lemma dec_results_P res : Forall Qt res -> forallb ty_ok res = true ->
+    forall l', Forall2 dec (bresults res) l' ->
+    exists rxs, Forall2 cfree l' rxs /\ piece (rtext rxs) (tresults res).
+  Proof.
+    intros Hr Ho l' Hd. unfold bresults in Hd. destruct res as [|t [|t2 res]]; cbn [bresults_with] in Hd.
+    - inversion Hd; subst. exists []. split; [constructor | exact piece_nil].
+    - inversion Hr; subst. cbn [forallb] in Ho. ok_split Ho. dinv.
+      match goal with IH : Qt t |- _ => uset IH t as (x & Cx & Px & _) end.
+      exists [x]. split; [constructor; [apply chain_operand, Cx | constructor]|].
+      intros r Hb. unfold rtext, tresults. cbn [map concat_str tresults_with]. rewrite app_nil_r, <- !app_assoc.
+      rewrite g_sp. apply Px, Hb.
+    - rewrite (gParams_eq Htab) in Hd. inversion Hd as [|? c' ? l2 Hc Hd2]; subst. inversion Hd2; subst.
+      apply dec_flat_inv in Hc. destruct Hc as (lg & -> & Hlg).
+      destruct (dec_tys (t :: t2 :: res) Hr Ho lg Hlg) as (xs & HF & HP).
+      exists [S "(" ++ join comma xs ++ S ")"]. split.
+      + constructor; [|constructor]. rewrite <- (gParams_eq Htab). apply (free_params cfg Htab _ xs HF).
+      + intros r Hb. unfold rtext, tresults. cbn [map concat_str tresults_with]. rewrite app_nil_r, <- !app_assoc.
+        rewrite g_sp. rewrite g_fop by in_tac. rewrite (Forall2_piece_join xs _ HP) by reflexivity.
+        rewrite g_fop by in_tac. lx_done.
+  Qed.
+
+  (* Params(ps..) and the result, at the end of a head of free items *)
+  Lemma dec_sig_P sg : SigP Qt sg -> sig_ok sg = true -> forall l', Forall2 dec (bsig sg) l' ->
+    exists px rxs, Forall2 cfree l' (px :: rxs) /\ lfree px (tparams (fst sg)) /\ piece (rtext rxs) (tresults (snd sg)).
+  Proof.
+    intros [Hp Hr] Ho l' Hd. unfold sig_ok, sig_ok_with in Ho. ok_split Ho. unfold bsig, bsig_with in Hd.
+    inversion Hd as [|? c' ? l2 Hc Hd2]; subst.
+    destruct (dec_params_P (fst sg) Hp Ho c' Hc) as (px & Fp & Pp).
+    destruct (dec_results_P (snd sg) Hr Hok l2 Hd2) as (rxs & Fr & Pr).
+    exists px, rxs. split; [constructor; assumption|]. split; assumption.
+  Qed.
+
+  Definition field_items (f : field) : list code :=
+    [MiniGo.id (fd_name f); CStmt (bty (fd_ty f))] ++ match fd_tag f with [] => [] | kvs => [CTag kvs] end.
+
+  Lemma dec_field_items f : Qt (fd_ty f) -> field_ok f = true ->
+    forall its', Forall2 dec (field_items f) its' -> exists x, chain cfg its' x /\ piece x (tfield f).
+  Proof.
+    destruct f as [[n t] kvs].
+    unfold field_ok, field_ok_with, field_items, tfield, tfield_with, fd_name, fd_ty, fd_tag. cbn [fst snd].
+    intros IH Ho its' Hd. apply andb_true_iff in Ho. destruct Ho as [Ho Htag].
+    apply andb_true_iff in Ho. destruct Ho as [Hn Hty]. unfold MiniGo.id in Hd.
+    destruct kvs as [|kv kvs]; cbn [app] in Hd; dinv; uset IH t as (x & Cx & Px & _).
+    - exists (n ++ sp ++ x). split.
+      + eapply chain_eq; [apply (chain_free cfg _ [n; x]); [|discriminate]|reflexivity].
+        constructor; [apply free_tkid|]. constructor; [apply chain_operand, Cx | constructor].
+      + intros r Hr. rewrite app_nil_r, <- !app_assoc. repeat lx1. rewrite Px by exact Hr. lx_done.
+    - exists (n ++ sp ++ x ++ sp ++ tag_text (kv :: kvs)). split.
+      + eapply chain_eq; [apply (chain_free cfg _ [n; x; tag_text (kv :: kvs)]); [|discriminate]|reflexivity].
+        constructor; [apply free_tkid|]. constructor; [apply chain_operand, Cx|].
+        constructor; [apply free_tag; discriminate | constructor].
+      + intros r Hr. unfold tag_ok in Htag. apply negb_true_iff in Htag.
+        rewrite (tag_text_quoted (kv :: kvs)) by first [discriminate | exact Htag].
+        rewrite <- !app_assoc. repeat lx1. rewrite Px by reflexivity. repeat lx1. lx_done.
+  Qed.
+
+  Lemma fields_R fs : FieldsP Qt fs -> forallb field_ok fs = true ->
+    Forall2 (R cfg) (map field_items fs) (map tfield fs).
+  Proof.
+    induction 1 as [|p fs Hp _ IH]; intros Ho; cbn [map]; [constructor|].
+    cbn [forallb] in Ho. apply andb_true_iff in Ho. destruct Ho as [Ho1 Ho2].
+    constructor; [|exact (IH Ho2)]. apply R_of_piece. exact (dec_field_items p Hp Ho1).
+  Qed.
+
+  Definition method_items (m : str * sig) : list code := MiniGo.id (fst m) :: bsig (snd m).
+
+  Lemma methods_R ms : Forall (fun m => SigP Qt (snd m)) ms ->
+    forallb (fun m : str * sig => ident_ok (fst m) && sig_ok (snd m)) ms = true ->
+    Forall2 (R cfg) (map method_items ms) (map (fun m => tid (fst m) :: tsig (snd m)) ms).
+  Proof.
+    induction 1 as [|[m sg] ms Hm _ IH]; intros Ho; cbn [map]; [constructor|].
+    cbn [forallb] in Ho. apply andb_true_iff in Ho. destruct Ho as [Ho1 Ho2]. cbn [fst snd] in *.
+    constructor; [|exact (IH Ho2)]. apply R_of_piece. intros its' Hd. ok_split Ho1.
+    unfold method_items, MiniGo.id in Hd. cbn [fst snd] in Hd.
+    inversion Hd as [|? c1 ? lb Hc1 H2]; subst. apply dec_tok_inv in Hc1. subst c1.
+    destruct (dec_sig_P sg Hm Hok lb H2) as (px & rxs & HF & Pp & Pr).
+    exists (m ++ sp ++ px ++ rtext rxs). split.
+    - eapply chain_eq; [apply (chain_free cfg _ (m :: px :: rxs)); [|discriminate]|].
+      + constructor; [apply free_tkid | exact HF].
+      + change (m :: px :: rxs) with ([m; px] ++ rxs). rewrite join_sp_app by discriminate.
+        cbn [join]. rewrite <- !app_assoc. reflexivity.
+    - intros r Hr. cbn [fst snd]. unfold tsig, tsig_with. rewrite <- !app_assoc. repeat lx1. rewrite Pp.
+      rewrite Pr by exact Hr. lx_done.
+  Qed.
+
+  Lemma type_lines_dec w (Hw : word_ok w = true) itss tks lm :
+    Forall2 (R cfg) itss tks -> decm (map CStmt itss) lm ->
+    exists bxs, Forall2 (good cfg) lm bxs /\ piece (type_lines (w ++ S "{") bxs) ((word_class w, w) :: tbraces tks).
+  Proof.
+    intros HR Hd. destruct (decm_lines cfg _ _ Hd itss tks eq_refl HR) as (bxs & HF & HN & _ & HE).
+    exists bxs. split; [exact HF|]. intros r Hr. rewrite type_lines_braces, <- app_assoc.
+    rewrite lex_word' by first [exact Hw | reflexivity].
+    rewrite (braces_free bxs tks HN (fun E => R_nil_tks _ _ HR (HE E))). lx_done.
+  Qed.
+
+  Lemma all_Qt t : Qt t.
+  Proof.
+    apply (ty_ind' Qt); unfold Qt at 1.
+    - intros n Ho l' Hd. cbn [bty ty_ok] in *. tbl Hd. dinv. exists n. split; [apply leaf_chain, free_tkid|].
+      split; [intros r Hr; apply g_id; assumption | intros r; apply ident_no_eq, Ho].
+    - intros t0 IH Ho l' Hd. cbn [bty ty_ok] in *. tbl Hd. dinv. uset IH t0 as (x & Cx & Px & _).
+      exists (S "* " ++ x). split; [|split; [|intros r; reflexivity]].
+      + eapply chain_eq; [apply (chain_free cfg _ [S "*"; x]); [|discriminate]|reflexivity].
+        constructor; [apply free_tktext; reflexivity|]. constructor; [apply chain_operand, Cx | constructor].
+      + intros r Hr. cbn [tty]. split_lits. repeat lx1. rewrite Px by exact Hr. lx_done.
+    - intros t0 IH Ho l' Hd. cbn [bty ty_ok] in *. tbl Hd. dinv. uset IH t0 as (x & Cx & Px & _).
+      exists (S "[] " ++ x). split; [|split; [|intros r; reflexivity]].
+      + eapply chain_eq; [apply (chain_free cfg _ [S "[]"; x]); [|discriminate]|reflexivity].
+        constructor; [|constructor; [apply chain_operand, Cx | constructor]].
+        rewrite <- (gIndex_eq Htab). eapply free_eq; [apply (free_index cfg Htab [] []); constructor | reflexivity].
+      + intros r Hr. cbn [tty]. split_lits. repeat lx1. rewrite Px by exact Hr. lx_done.
+    - intros k v IHk IHv Ho l' Hd. cbn [bty ty_ok] in *. ok_split Ho. tbl Hd. dinv.
+      uset IHk k as (xk & Ck & Pk & _). uset IHv v as (xv & Cv & Pv & _).
+      exists (S "map[" ++ xk ++ S "] " ++ xv). split; [|split; [|intros r; reflexivity]].
+      + eapply chain_eq; [apply (chain_free cfg _ [S "map[" ++ xk ++ S "]"; xv]); [|discriminate]|].
+        * constructor; [|constructor; [apply chain_operand, Cv | constructor]].
+          rewrite <- (gMap_eq Htab). eapply free_eq; [apply (free_map cfg Htab [_] [xk])|reflexivity].
+          constructor; [apply chain_good, Ck | constructor].
+        * cbn [join]. rewrite <- !app_assoc. reflexivity.
+      + intros r Hr. cbn [tty]. split_lits. rewrite lex_word' by reflexivity. repeat lx1.
+        rewrite Pk by reflexivity. repeat lx1. rewrite Pv by exact Hr. lx_done.
+    - intros n t0 IH Ho l' Hd. cbn [bty ty_ok] in *. tbl Hd. dinv. uset IH t0 as (x & Cx & Px & _).
+      exists (S "[" ++ Z_to_dec n ++ S "] " ++ x). split; [|split; [|intros r; reflexivity]].
+      + eapply chain_eq; [apply (chain_free cfg _ [S "[" ++ Z_to_dec n ++ S "]"; x]); [|discriminate]|].
+        * constructor; [|constructor; [apply chain_operand, Cx | constructor]].
+          rewrite <- (gIndex_eq Htab). eapply free_eq; [apply (free_index cfg Htab [_] [Z_to_dec n])|reflexivity].
+          constructor; [|constructor]. apply chain_good, leaf_chain, free_int.
+        * cbn [join]. rewrite <- !app_assoc. reflexivity.
+      + intros r Hr. cbn [tty]. split_lits. repeat lx1. rewrite Px by exact Hr. lx_done.
+    - intros d t0 IH Ho l' Hd. cbn [ty_ok] in *. destruct d; cbn [bty] in Hd; tbl Hd; dinv; uset IH t0 as (x & Cx & Px & _).
+      + exists (S "chan " ++ x). split; [|split; [|intros r; reflexivity]].
+        * eapply chain_eq; [apply (chain_free cfg _ [S "chan"; x]); [|discriminate]|reflexivity].
+          constructor; [apply free_tktext; reflexivity|]. constructor; [apply chain_operand, Cx | constructor].
+        * intros r Hr. cbn [tty]. split_lits. repeat lx1. rewrite Px by exact Hr. lx_done.
+      + exists (S "<- chan " ++ x). split; [|split; [|intros r; reflexivity]].
+        * eapply chain_eq; [apply (chain_free cfg _ [S "<-"; S "chan"; x]); [|discriminate]|reflexivity].
+          constructor; [apply free_tktext; reflexivity|]. constructor; [apply free_tktext; reflexivity|].
+          constructor; [apply chain_operand, Cx | constructor].
+        * intros r Hr. cbn [tty]. split_lits. repeat lx1. rewrite Px by exact Hr. lx_done.
+      + exists (S "chan <- " ++ x). split; [|split; [|intros r; reflexivity]].
+        * eapply chain_eq; [apply (chain_free cfg _ [S "chan"; S "<-"; x]); [|discriminate]|reflexivity].
+          constructor; [apply free_tktext; reflexivity|]. constructor; [apply free_tktext; reflexivity|].
+          constructor; [apply chain_operand, Cx | constructor].
+        * intros r Hr. cbn [tty]. split_lits. repeat lx1. rewrite Px by exact Hr. lx_done.
+    - intros t0 IH Ho l' Hd. cbn [bty ty_ok] in *. tbl Hd. dinv. uset IH t0 as (x & Cx & Px & _).
+      exists (S "... " ++ x). split; [|split; [|intros r; reflexivity]].
+      + eapply chain_eq; [apply (chain_free cfg _ [S "..."; x]); [|discriminate]|reflexivity].
+        constructor; [apply free_tktext; reflexivity|]. constructor; [apply chain_operand, Cx | constructor].
+      + intros r Hr. cbn [tty]. split_lits. repeat lx1. rewrite Px by exact Hr. lx_done.
+    - intros ps res Hp Hr0 Ho l' Hd. cbn [bty ty_ok] in *. rewrite (kw_Func Htab) in Hd.
+      inversion Hd as [|? c1 ? lb Hc1 H2]; subst. apply dec_tok_inv in Hc1. subst c1.
+      destruct (dec_sig_P (ps, res) (conj Hp Hr0) Ho lb H2) as (px & rxs & HF & Pp & Pr). cbn [fst snd] in *.
+      exists (S "func " ++ px ++ rtext rxs). split; [|split; [|intros r; reflexivity]].
+      + eapply chain_eq; [apply (chain_free cfg _ (S "func" :: px :: rxs)); [|discriminate]|].
+        * constructor; [apply free_tktext; reflexivity | exact HF].
+        * change (S "func" :: px :: rxs) with ([S "func"; px] ++ rxs). rewrite join_sp_app by discriminate.
+          cbn [join]. rewrite <- !app_assoc. reflexivity.
+      + intros r Hr. cbn [tty]. unfold tsig_with. cbn [fst snd]. split_lits. repeat lx1.
+        fold (tparams ps). fold (tresults res). rewrite Pp. rewrite Pr by exact Hr. lx_done.
+    - intros fs Hf Ho l' Hd. cbn [bty ty_ok] in *. rewrite (gStruct_eq Htab) in Hd. dinv.
+      match goal with H : decm _ ?lm |- _ =>
+        change (map (bfield_with bty) fs) with (map bfield fs) in H;
+        assert (E : map bfield fs = map CStmt (map field_items fs)) by (rewrite map_map; reflexivity);
+        rewrite E in H;
+        destruct (type_lines_dec (S "struct") eq_refl _ _ lm (fields_R fs Hf Ho) H) as (bxs & HF & HP) end.
+      exists (type_lines (S "struct{") bxs). split; [|split; [|intros r; reflexivity]].
+      + apply leaf_chain. rewrite <- (gStruct_eq Htab). apply (free_struct cfg Htab _ bxs HF).
+      + exact HP.
+    - intros ms Hm Ho l' Hd. cbn [bty ty_ok] in *. rewrite (gInterface_eq Htab) in Hd. dinv.
+      match goal with H : decm _ ?lm |- _ =>
+        assert (E : map (fun m : str * sig => CStmt (MiniGo.id (fst m) :: bsig_with bty (snd m))) ms =
+                    map CStmt (map method_items ms)) by (rewrite map_map; reflexivity);
+        rewrite E in H;
+        destruct (type_lines_dec (S "interface") eq_refl _ _ lm (methods_R ms Hm Ho) H) as (bxs & HF & HP) end.
+      exists (type_lines (S "interface{") bxs). split; [|split; [|intros r; reflexivity]].
+      + apply leaf_chain. rewrite <- (gInterface_eq Htab). apply (free_interface cfg Htab _ bxs HF).
+      + exact HP.
+  Qed.
+
+  Lemma all_Qt_params ps : ParamsP Qt ps.
+  Proof. apply Forall_forall. intros p _. apply all_Qt. Qed.
+  Lemma all_Qt_tys res : Forall Qt res.
+  Proof. apply Forall_forall. intros p _. apply all_Qt. Qed.
 
   (* ---- lists of expressions *)
   Lemma dec_exprs es : Forall Qe es -> forallb expr_ok es = true ->
@@ -465,12 +744,6 @@ Section Main.
   Qed.
 
   (* ---- blocks *)
-  Lemma R_of_piece its tk :
-    (forall its', Forall2 dec its its' -> exists x, chain cfg its' x /\ piece x tk) -> R cfg its tk.
-  Proof.
-    intros H its' Hd. destruct (H its' Hd) as (x & Cx & Px). exists x.
-    split; [exact Cx|]. split; [apply piece_pieceN, Px | intros _; exact Px].
-  Qed.
 
   Lemma body_R body : Forall Qs body -> forallb stmt_ok body = true ->
     Forall2 (R cfg) (map bstmt body) (map tstmt body).
@@ -509,9 +782,6 @@ Section Main.
   (* ---- expressions *)
   Ltac start H Hd := intros H l' Hd; cbn [expr_ok stmt_ok clause_ok opt_ok] in H; ok_split H;
                      cbn [bexpr bstmt] in Hd; tbl Hd; dinv.
-
-  Lemma leaf_chain c x : cfree c x -> chain cfg [c] x.
-  Proof. apply one_free. Qed.
 
   Lemma qe_id n : Qe (EId n).
   Proof.
@@ -662,58 +932,143 @@ Section Main.
 
   Lemma qe_comp t elts : Forall Qe elts -> Qe (EComp t elts).
   Proof.
-    intros IHe. start Ho Hd.
-    match goal with H : Forall2 dec (bty t) ?l |- _ => apply (dec_flat_same _ _ (bty_flat t)) in H; subst l end.
+    intros IHe Ho l' Hd. cbn [expr_ok] in Ho. ok_split Ho. cbn [bexpr] in Hd.
+    apply Forall2_app_inv_l in Hd. destruct Hd as (la & lb & H1 & H2 & ->).
+    destruct (all_Qt t Ho la H1) as (xt & Ct & Pt0 & Nt). tbl H2. dinv.
     match goal with H : Forall2 dec (map _ elts) ?l |- _ =>
       destruct (dec_exprs_join elts IHe ltac:(assumption) l H) as (xs & HF & HP); clear H end.
-    exists (cty t ++ S " {" ++ join comma xs ++ S "}"). split; [|split].
-    - eapply chain_eq; [eapply (chain_app cfg _ _ _ [_] (ty_chain cfg Htab t)); [|discriminate]|].
+    exists (xt ++ S " {" ++ join comma xs ++ S "}"). split; [|split].
+    - eapply chain_eq; [eapply (chain_app cfg _ _ _ [_] Ct); [|discriminate]|].
       + constructor; [|constructor]. rewrite <- (gValues_eq Htab). apply (free_values cfg Htab _ xs HF).
       + reflexivity.
-    - intros r Hr. cbn [texpr]. split_lits. rewrite (lx_ty t ltac:(assumption)) by reflexivity. repeat lx1.
+    - intros r Hr. cbn [texpr]. split_lits. rewrite Pt0 by reflexivity. repeat lx1.
       rewrite HP by reflexivity. repeat lx1. lx_done.
-    - intros r. rewrite <- app_assoc. apply cty_no_eq. assumption.
+    - intros r. rewrite <- app_assoc. apply Nt.
   Qed.
 
-  Ltac ctx_false := intros suf; unfold bparams;
+  (* a keyed literal: a decoration does not enter a Dict (Spec/MiniGoComments.v: dec_dict), and
+     the type and the Values group around it are one-line - nothing can be added *)
+  Lemma qe_keyed t pairs : Forall (PairP Qe) pairs -> Qe (EKeyed t pairs).
+  Proof.
+    intros _ Ho l' Hd. cbn [expr_ok] in Ho. ok_split Ho. cbn [bexpr] in Hd.
+    apply Forall2_app_inv_l in Hd. destruct Hd as (la & lb & H1 & H2 & ->).
+    destruct (all_Qt t Ho la H1) as (xt & Ct & Pt0 & Nt).
+    apply dec_flat_same in H2; [subst lb | rewrite (gValues_eq Htab); reflexivity].
+    exists (xt ++ S " {" ++ keyed_body (sort_keyed (map (fun kv => (cexpr (fst kv), cexpr (snd kv))) pairs)) ++ S "}").
+    split; [|split].
+    - eapply chain_eq; [eapply (chain_app cfg _ _ _ [_] Ct); [|discriminate]|reflexivity].
+      constructor; [|constructor]. rewrite (gValues_eq Htab). apply free_values_dict. apply (pairs_free cfg).
+      apply Forall_forall. intros kv _. split; exact (expr_chain cfg Htab _).
+    - intros r Hr. cbn [texpr]. rewrite <- !app_assoc. rewrite Pt0 by reflexivity.
+      rewrite (lx_keyed_tail pairs Hok r Hr). lx_done.
+    - intros r. rewrite <- app_assoc. apply Nt.
+  Qed.
+
+  Ltac ctx_false := intros suf; unfold bparams, bparams_with;
     rewrite ?(kw_Func Htab), ?(gParams_eq Htab), ?(gIf_eq Htab), ?(gFor_eq Htab), ?(gSwitch_eq Htab), ?(gBlock_eq Htab);
     reflexivity.
 
-  (* func [name] (params) [result] { body } *)
-  Lemma func_tail (hd : list code) (hxs : list str) ps res body :
-    Forall2 cfree hd hxs -> forallb flatc hd = true ->
-    (forall items' suf, case_ctx ((hd ++ bparams ps :: bresult res) ++ gBlock 1 items' :: [] ++ suf) (gBlock 1 items') = false) ->
-    Forall Qs body -> forallb stmt_ok body = true ->
-    forall l', Forall2 dec ((hd ++ bparams ps :: bresult res) ++ [gBlock 1 (map (fun s => CStmt (bstmt s)) body)]) l' ->
-    exists bx, chain cfg l' (join sp ((hxs ++ cparams ps :: result_texts res) ++ [bx])) /\
-               lfree bx (tbraces (map tstmt body)).
+  (* ---- the item before a Block is the same item in a decorated statement *)
+  Lemma dec_is_cod c c' : dec c c' -> is_case_or_default c = is_case_or_default c'.
+  Proof. intros H. inversion H; reflexivity. Qed.
+
+  Definition ocod (o : option code) : option bool := option_map is_case_or_default o.
+
+  Lemma prev_of_dec gid l l' : Forall2 dec l l' -> forall G G' rest rest' prev prev',
+    (match G with CGroup g _ _ _ _ _ _ => g = gid | _ => False end /\
+     match G' with CGroup g _ _ _ _ _ _ => g = gid | _ => False end) ->
+    ocod prev = ocod prev' ->
+    ocod (prev_of gid prev (l ++ G :: rest)) = ocod (prev_of gid prev' (l' ++ G' :: rest')).
   Proof.
-    intros Hhd Hfl Hctx Hb Ho l' Hd.
-    apply Forall2_app_inv_l in Hd. destruct Hd as (la & lb & H1 & H2 & ->).
-    apply dec_flat_same in H1; [subst la|].
-    2:{ rewrite forallb_app, Hfl. cbn [forallb andb]. rewrite bparams_flat, bresult_flat. reflexivity. }
-    rewrite (gBlock_eq Htab) in H2. dinv. rewrite <- (gBlock_eq Htab).
+    induction 1 as [|x x' l l' Hx _ IH]; intros G G' rest rest' prev prev' HG Hp.
+    - destruct HG as [H1 H2]. destruct G; try contradiction. destruct G'; try contradiction. subst.
+      cbn [app prev_of]. rewrite !N.eqb_refl. exact Hp.
+    - cbn [app prev_of].
+      assert (Hn : ocod (Some x) = ocod (Some x')) by (unfold ocod; cbn [option_map]; rewrite (dec_is_cod x x' Hx); reflexivity).
+      inversion Hx; subst; try (apply IH; assumption);
+        (destruct (N.eqb _ gid); [exact Hp | apply IH; assumption]).
+  Qed.
+
+  Lemma case_ctx_dec pre0 pre' g n o c s m items items' rest rest' :
+    Forall2 dec pre0 pre' ->
+    case_ctx (pre0 ++ CGroup g n o c s m items :: rest) (CGroup g n o c s m items) =
+    case_ctx (pre' ++ CGroup g n o c s m items' :: rest') (CGroup g n o c s m items').
+  Proof.
+    intros H. unfold case_ctx.
+    pose proof (prev_of_dec g pre0 pre' H (CGroup g n o c s m items) (CGroup g n o c s m items') rest rest' None None
+                  (conj eq_refl eq_refl) eq_refl) as E.
+    unfold ocod in E.
+    destruct (prev_of g None (pre0 ++ CGroup g n o c s m items :: rest)),
+             (prev_of g None (pre' ++ CGroup g n o c s m items' :: rest')); cbn [option_map] in E;
+      try discriminate; [injection E as E; exact E | reflexivity].
+  Qed.
+
+  (* func [receiver] [name] (params) [result] { body }: the head already decorated (lh) *)
+  Lemma func_tail hd lh hxs ps res body ls lb :
+    Forall2 dec hd lh -> Forall2 cfree lh hxs ->
+    (forall items' suf, case_ctx ((hd ++ bsig (ps, res)) ++ gBlock 1 items' :: [] ++ suf) (gBlock 1 items') = false) ->
+    forallb param_ok ps = true -> forallb ty_ok res = true -> Forall Qs body -> forallb stmt_ok body = true ->
+    Forall2 dec (bsig (ps, res)) ls -> Forall2 dec [gBlock 1 (map (fun s => CStmt (bstmt s)) body)] lb ->
+    exists px rxs bx, chain cfg ((lh ++ ls) ++ lb) (join sp ((hxs ++ px :: rxs) ++ [bx])) /\
+      lfree px (tparams ps) /\ piece (rtext rxs) (tresults res) /\ lfree bx (tbraces (map tstmt body)).
+  Proof.
+    intros Hh Hhd Hctx Hop Hor Hb Ho Hs Hbl.
+    assert (Hso : sig_ok (ps, res) = true) by (unfold sig_ok, sig_ok_with; cbn [fst snd]; fold param_ok; rewrite Hop, Hor; reflexivity).
+    destruct (dec_sig_P (ps, res) (conj (all_Qt_params ps) (all_Qt_tys res)) Hso ls Hs) as (px & rxs & HF & Pp & Pr).
+    cbn [fst snd] in Pp, Pr.
+    rewrite (gBlock_eq Htab) in Hbl. dinv. rewrite <- (gBlock_eq Htab).
     match goal with H : decm _ ?lm |- _ =>
-      destruct (body_tail (hd ++ bparams ps :: bresult res) (hxs ++ cparams ps :: result_texts res) body lm [] []) as (bx & Cb & Pb);
-        [|exact Hb|exact Ho|exact H|constructor|apply Hctx|] end.
-    - apply Forall2_app; [exact Hhd|]. constructor; [apply (params_free cfg Htab)|apply (result_free cfg Htab)].
-    - exists bx. split; [exact Cb | exact Pb].
+      destruct (body_tail (lh ++ ls) (hxs ++ px :: rxs) body lm [] []) as (bx & Cb & Pb);
+        [|exact Hb|exact Ho|exact H|constructor| |] end.
+    - apply Forall2_app; [exact Hhd | exact HF].
+    - intros suf. rewrite <- (Hctx lm suf). rewrite !(gBlock_eq Htab). symmetry. apply case_ctx_dec.
+      apply Forall2_app; assumption.
+    - exists px, rxs, bx. split; [exact Cb|]. split; [exact Pp|]. split; [exact Pr | exact Pb].
+  Qed.
+
+  Ltac ctx3 res := intros items suf; destruct res as [|? [|? ?]];
+    unfold bsig, bsig_with, bparams, bparams_with, bresults, bresults_with; cbn [fst snd];
+    rewrite ?(kw_Func Htab), ?(gParams_eq Htab), ?(gBlock_eq Htab); reflexivity.
+
+  (* the text of a func with head texts hxs *)
+  Lemma func_text hxs px rxs bx : hxs <> [] ->
+    join sp ((hxs ++ px :: rxs) ++ [bx]) = join sp hxs ++ sp ++ px ++ rtext rxs ++ sp ++ bx.
+  Proof.
+    intros Hne. rewrite join_app_ne by (first [discriminate | destruct hxs; [congruence | discriminate]]).
+    replace (hxs ++ px :: rxs) with ((hxs ++ [px]) ++ rxs) by (rewrite <- app_assoc; reflexivity).
+    rewrite join_sp_app by (destruct hxs; discriminate). rewrite join_app_ne by (first [assumption | discriminate]).
+    cbn [join]. rewrite <- !app_assoc. reflexivity.
   Qed.
 
   Lemma qe_func ps res body : Forall Qs body -> Qe (EFunc ps res body).
   Proof.
-    intros IHb Ho l' Hd. cbn [expr_ok] in Ho. ok_split Ho. cbn [bexpr] in Hd.
-    change ([kw (S "Func"); bparams ps] ++ bresult res ++ [gBlock 1 (map (fun s => CStmt (bstmt s)) body)])
-      with (([kw (S "Func")] ++ bparams ps :: bresult res) ++ [gBlock 1 (map (fun s => CStmt (bstmt s)) body)]) in Hd.
-    destruct (func_tail [kw (S "Func")] [S "func"] ps res body) with (l' := l') as (bx & Cb & Pb);
-      [| |intros items'; destruct res; ctx_false|exact IHb|assumption|exact Hd|].
-    - constructor; [apply (free_kw_text cfg _ _ (kw_Func Htab)); reflexivity | constructor].
-    - rewrite (kw_Func Htab). reflexivity.
-    - eexists. split; [exact Cb|]. split.
-      + intros r Hr. cbn [texpr]. destruct res as [t|]; cbn [result_texts app join topt opt_ok] in *;
-          rewrite <- ?app_assoc; repeat lx1; rewrite (lx_params ps ltac:(assumption)); repeat lx1;
-          try (rewrite (lx_ty t ltac:(assumption)) by reflexivity; repeat lx1); rewrite Pb; lx_done.
-      + intros r. destruct res; reflexivity.
+    intros IHb Ho l' Hd. cbn [expr_ok] in Ho. ok_split Ho. cbn [bexpr app] in Hd.
+    inversion Hd as [|? c1 ? l1 Hc1 Hd1]; subst. inversion Hd1 as [|? c2 ? l2 Hc2 Hd2]; subst.
+    apply Forall2_app_inv_l in Hd2. destruct Hd2 as (lr & lb & Hlr & Hbl & ->).
+    rewrite (kw_Func Htab) in Hc1. apply dec_tok_inv in Hc1. subst c1.
+    destruct (func_tail [kw (S "Func")] [CTok (TkText (S "func"))] [S "func"] ps res body (c2 :: lr) lb)
+      as (px & rxs & bx & Cb & Pp & Pr & Pb);
+      [| |ctx3 res|assumption|assumption|exact IHb|assumption|constructor; assumption|exact Hbl|].
+    - rewrite (kw_Func Htab). constructor; [constructor | constructor].
+    - constructor; [apply free_tktext; reflexivity | constructor].
+    - exists (S "func" ++ sp ++ px ++ rtext rxs ++ sp ++ bx). split; [|split].
+      + eapply chain_eq; [exact Cb|]. rewrite func_text by discriminate. reflexivity.
+      + intros r Hr. cbn [texpr]. rewrite <- !app_assoc. repeat lx1. rewrite Pp. rewrite Pr by reflexivity. repeat lx1.
+        rewrite Pb. lx_done.
+      + intros r. reflexivity.
+  Qed.
+
+  Lemma qe_assert x t : Qe x -> Qe (EAssert x t).
+  Proof.
+    intros IHx. start Ho Hd. usee IHx x as (sx & Cx & Px & Nx). uset (all_Qt t) t as (xt & Ct & Pt0 & _).
+    exists (sx ++ S " .(" ++ xt ++ S ")"). split; [|split].
+    - eapply chain_eq; [eapply (chain_app cfg _ _ _ [_] Cx); [|discriminate]|].
+      + constructor; [|constructor]. rewrite <- (gAssert_eq Htab). apply (free_assert cfg Htab [_] [xt]).
+        constructor; [apply chain_good, Ct | constructor].
+      + reflexivity.
+    - intros r Hr. cbn [texpr]. split_lits. rewrite Px by reflexivity. repeat lx1. rewrite g_dot_paren. repeat lx1.
+      rewrite Pt0 by reflexivity. repeat lx1. lx_done.
+    - intros r. rewrite <- app_assoc. apply Nx.
   Qed.
 
   (* ---- statements *)
@@ -951,6 +1306,77 @@ Section Main.
         rewrite Pb. lx_done.
   Qed.
 
+  Lemma qs_select cls : Forall Qc cls -> Qs (SSelect cls).
+  Proof.
+    intros IHc Ho l' Hd. cbn [stmt_ok] in Ho. cbn [bstmt] in Hd. tbl Hd. dinv. rewrite <- (gBlock_eq Htab).
+    match goal with H : decm _ ?lm |- _ => rewrite map_bclause in H;
+      destruct (block_tail [CTok (TkText (S "select"))] [S "select"] (map clause_items cls) (map tclause cls) lm [] [])
+        as (bx & Cb & Pb);
+        [|exact (clauses_R cls IHc Ho)|exact H|constructor|intros suf; rewrite (gBlock_eq Htab); reflexivity|] end.
+    - constructor; [apply free_tktext; reflexivity | constructor].
+    - exists (S "select" ++ sp ++ bx). split; [eapply chain_eq; [exact Cb | reflexivity]|].
+      intros r Hr. cbn [tstmt]. rewrite <- !app_assoc. repeat lx1. rewrite Pb. lx_done.
+  Qed.
+
+  (* the guard of a type switch: [b :=] x .(type) *)
+  Lemma guard_dec bind x : Qe x -> expr_ok x = true -> opt_ok ident_ok bind = true ->
+    forall c', dec (CStmt (match bind with
+                           | Some b => [MiniGo.id b; op (S ":="); CStmt (bexpr x ++ [gAssert 0 [CStmt [kw (S "Type")]]])]
+                           | None => bexpr x ++ [gAssert 0 [CStmt [kw (S "Type")]]]
+                           end)) c' ->
+    exists gx, good cfg c' gx /\
+      piece gx (topt (fun b => [tid b; top (S ":=")]) bind ++ texpr x ++ [top (S "."); top (S "("); tkw (S "type"); top (S ")")]).
+  Proof.
+    intros IHx Hox Hob c' Hd.
+    assert (HG : forall lg, Forall2 dec (bexpr x ++ [gAssert 0 [CStmt [kw (S "Type")]]]) lg ->
+              exists g, chain cfg lg g /\ piece g (texpr x ++ [top (S "."); top (S "("); tkw (S "type"); top (S ")")])).
+    { intros lg Hlg. tbl Hlg. dinv. usee IHx x as (sx & Cx & Px & _).
+      exists (sx ++ S " .(type)"). split.
+      - eapply chain_eq; [eapply (chain_app cfg _ _ _ [_] Cx); [|discriminate]|].
+        + constructor; [|constructor]. rewrite <- (gAssert_eq Htab). apply (free_assert cfg Htab [_] [S "type"]).
+          constructor; [|constructor]. apply chain_good, leaf_chain, free_tktext. reflexivity.
+        + reflexivity.
+      - intros r Hr. split_lits. rewrite Px by reflexivity. repeat lx1. rewrite g_dot_paren. repeat lx1. lx_done. }
+    destruct bind as [b|]; cbn [opt_ok topt] in *.
+    - unfold MiniGo.id, op in Hd. apply dec_stmt_inv in Hd. destruct Hd as (l3 & -> & H3).
+      inversion H3 as [|? c1 ? r1 Hc1 H4]; subst. inversion H4 as [|? c2 ? r2 Hc2 H5]; subst.
+      inversion H5 as [|? c3 ? r3 Hc3 H6]; subst. inversion H6; subst.
+      apply dec_tok_inv in Hc1. apply dec_tok_inv in Hc2. subst. apply dec_stmt_inv in Hc3. destruct Hc3 as (lg & -> & Hlg).
+      destruct (HG lg Hlg) as (g & Cg & Pg).
+      exists (b ++ S " := " ++ g). split.
+      + apply chain_good. eapply chain_eq; [apply (chain_free cfg _ [b; S ":="; g]); [|discriminate]|reflexivity].
+        constructor; [apply free_tkid|]. constructor; [apply free_tktext; reflexivity|].
+        constructor; [apply chain_operand, Cg | constructor].
+      + intros r Hr. split_lits. cbn [app]. repeat lx1. rewrite Pg by exact Hr. lx_done.
+    - apply dec_stmt_inv in Hd. destruct Hd as (lg & -> & Hlg). destruct (HG lg Hlg) as (g & Cg & Pg).
+      exists g. split; [apply chain_good, Cg | exact Pg].
+  Qed.
+
+  Lemma qs_typeswitch init bind x cls : OptP Qs init -> Qe x -> Forall Qc cls -> Qs (STypeSwitch init bind x cls).
+  Proof.
+    intros IHi IHx IHc Ho l' Hd. cbn [stmt_ok] in Ho. ok_split Ho. cbn [bstmt] in Hd.
+    rewrite (gSwitch_eq Htab), (gBlock_eq Htab) in Hd.
+    inversion Hd as [|? c1 ? r1 Hc1 H2]; subst. inversion H2 as [|? c2 ? r2 Hc2 H3]; subst. inversion H3; subst.
+    apply dec_flat_inv in Hc1. destruct Hc1 as (lh & -> & Hlh). apply dec_multi_inv in Hc2. destruct Hc2 as (lm & -> & Hlm).
+    apply Forall2_app_inv_l in Hlh. destruct Hlh as (li & lgd & Hli & Hlgd & ->).
+    inversion Hlgd as [|? cg ? rg Hcg Hnil]; subst. inversion Hnil; subst.
+    destruct (guard_dec bind x IHx ltac:(assumption) ltac:(assumption) cg Hcg) as (gx & Gg & Pg).
+    rewrite <- (gSwitch_eq Htab), <- (gBlock_eq Htab).
+    destruct init as [i|]; cbn [OptP opt_ok opt_items] in *.
+    - inversion Hli as [|? ci ? ri Hci Hn2]; subst. inversion Hn2; subst.
+      apply dec_stmt_inv in Hci. destruct Hci as (ls & -> & Hls).
+      destruct (IHi ltac:(assumption) ls Hls) as (si & Ci & Pi).
+      destruct (switch_tail [CStmt ls; cg] [si; gx] cls lm) as (bx & Cb & Pb); [|exact IHc|assumption|exact Hlm|].
+      + constructor; [apply chain_good, Ci|]. constructor; [exact Gg | constructor].
+      + eexists. split; [exact Cb|]. intros r Hr. cbn [tstmt topt join]. split_lits. repeat lx1.
+        rewrite Pi by reflexivity. repeat lx1. rewrite Pg by reflexivity. repeat lx1. rewrite Pb. lx_done.
+    - inversion Hli; subst.
+      destruct (switch_tail [cg] [gx] cls lm) as (bx & Cb & Pb); [|exact IHc|assumption|exact Hlm|].
+      + constructor; [exact Gg | constructor].
+      + eexists. split; [exact Cb|]. intros r Hr. cbn [tstmt topt join]. split_lits. cbn [app]. repeat lx1.
+        rewrite Pg by reflexivity. repeat lx1. rewrite Pb. lx_done.
+  Qed.
+
   Lemma qs_block body : Forall Qs body -> Qs (SBlock body).
   Proof.
     intros IHb. start Ho Hd. rewrite <- (gBlock_eq Htab).
@@ -1016,18 +1442,18 @@ Section Main.
   Proof.
     intros IHe Hot Hoe l' Hd.
     destruct t as [t|], e as [e|]; cbn [opt_items app OptP opt_ok topt] in *; tbl Hd; dinv;
-      try match goal with H : Forall2 dec (bty t) ?l |- _ => apply (dec_flat_same _ _ (bty_flat t)) in H; subst l end;
+      try uset (all_Qt t) t as (xt & Ct & Pt0 & _);
       try usee IHe e as (se & Ce & Pe & _).
-    - exists [cty t; S "="; se]. split.
-      + constructor; [apply (ty_operand cfg Htab)|]. constructor; [apply free_tktext; reflexivity|].
+    - exists [xt; S "="; se]. split.
+      + constructor; [apply chain_operand, Ct|]. constructor; [apply free_tktext; reflexivity|].
         constructor; [apply chain_operand, Ce | constructor].
       + intros hx htk r Hh Hr Hne. destruct hx as [|h0 hx]; [congruence|]. cbn [join]. rewrite <- !app_assoc.
-        rewrite Hh by reflexivity. repeat lx1. rewrite (lx_ty t Hot) by reflexivity. repeat lx1.
+        rewrite Hh by reflexivity. repeat lx1. rewrite Pt0 by reflexivity. repeat lx1.
         rewrite Pe by exact Hr. lx_done.
-    - exists [cty t]. split.
-      + constructor; [apply (ty_operand cfg Htab) | constructor].
+    - exists [xt]. split.
+      + constructor; [apply chain_operand, Ct | constructor].
       + intros hx htk r Hh Hr Hne. destruct hx as [|h0 hx]; [congruence|]. cbn [join]. rewrite <- !app_assoc.
-        rewrite Hh by reflexivity. repeat lx1. rewrite (lx_ty t Hot) by exact Hr. lx_done.
+        rewrite Hh by reflexivity. repeat lx1. rewrite Pt0 by exact Hr. lx_done.
     - exists [S "="; se]. split.
       + constructor; [apply free_tktext; reflexivity|]. constructor; [apply chain_operand, Ce | constructor].
       + intros hx htk r Hh Hr Hne. destruct hx as [|h0 hx]; [congruence|]. cbn [join]. rewrite <- !app_assoc.
@@ -1050,6 +1476,39 @@ Section Main.
       rewrite E, <- !app_assoc. repeat lx1.
       rewrite (HL x [tid x] r) by first [assumption | intros r0 Hr0; apply g_id; assumption | destruct x; [discriminate|discriminate]].
       lx_done.
+  Qed.
+
+  Lemma qs_labeled l s0 : Qs s0 -> Qs (SLabeled l s0).
+  Proof.
+    intros IHs. start Ho Hd. uses IHs s0 as (ss & Cs & Ps0).
+    exists (l ++ S " : " ++ ss). split.
+    - eapply chain_eq; [apply (chain_free cfg _ [l; S ":"; ss]); [|discriminate]|reflexivity].
+      constructor; [apply free_tkid|]. constructor; [apply free_tktext; reflexivity|].
+      constructor; [apply chain_operand, Cs | constructor].
+    - intros r Hr. cbn [tstmt]. split_lits. repeat lx1. rewrite Ps0 by exact Hr. lx_done.
+  Qed.
+
+  Lemma qs_goto l : Qs (SGoto l).
+  Proof.
+    start Ho Hd. exists (S "goto " ++ l). split.
+    - eapply chain_eq; [apply (chain_free cfg _ [S "goto"; l]); [|discriminate]|reflexivity].
+      constructor; [apply free_tktext; reflexivity|]. constructor; [apply free_tkid | constructor].
+    - intros r Hr. cbn [tstmt]. split_lits. repeat lx1. lx_done.
+  Qed.
+
+  Lemma qs_fallthrough : Qs SFallthrough.
+  Proof.
+    start Ho Hd. exists (S "fallthrough"). split; [apply leaf_chain, free_tktext; reflexivity|].
+    intros r Hr. cbn [tstmt]. repeat lx1. lx_done.
+  Qed.
+
+  Lemma qs_send c v : Qe c -> Qe v -> Qs (SSend c v).
+  Proof.
+    intros IHc IHv. start Ho Hd. usee IHc c as (sc & Cc & Pc & _). usee IHv v as (sv & Cv & Pv & _).
+    exists (sc ++ S " <- " ++ sv). split.
+    - eapply chain_eq; [apply (chain_app cfg _ _ _ [S "<-"; sv] Cc); [|discriminate]|reflexivity].
+      constructor; [apply free_tktext; reflexivity|]. constructor; [apply chain_operand, Cv | constructor].
+    - intros r Hr. cbn [tstmt]. split_lits. rewrite Pc by reflexivity. repeat lx1. rewrite Pv by exact Hr. lx_done.
   Qed.
 
   (* ---- clauses: the Block after Case / Default has no braces, its text ends the clause *)
@@ -1116,13 +1575,62 @@ Section Main.
     - exists x. split; [exact Cx|]. split; [exact Nx | exact Px].
   Qed.
 
+  Lemma qc_comm s0 body : Qs s0 -> Forall Qs body -> Qc (CComm s0 body).
+  Proof.
+    intros IHs IHb Ho its' Hd. cbn [clause_ok] in Ho. ok_split Ho. cbn [clause_items] in Hd.
+    rewrite (gCase_eq Htab), (gBlock_eq Htab) in Hd.
+    inversion Hd as [|? c1 ? r1 Hc1 H2]; subst. inversion H2 as [|? c2 ? r2 Hc2 H3]; subst. inversion H3; subst.
+    apply dec_flat_inv in Hc1. destruct Hc1 as (lh & -> & Hlh). apply dec_multi_inv in Hc2. destruct Hc2 as (lm & -> & Hlm).
+    inversion Hlh as [|? cs ? rs Hcs Hn]; subst. inversion Hn; subst.
+    apply dec_stmt_inv in Hcs. destruct Hcs as (ls & -> & Hls).
+    destruct (IHs Ho ls Hls) as (ss & Cs & Ps0).
+    rewrite <- (gCase_eq Htab), <- (gBlock_eq Htab).
+    destruct (clause_tail (gCase 0 [CStmt ls]) (S "case " ++ join comma [ss] ++ S ":")
+                (tkw (S "case") :: tstmt s0 ++ [top (S ":")]) body lm) as (x & Cx & Nx & Px);
+      [| | | |exact IHb|assumption|exact Hlm|].
+    - apply (free_case cfg Htab [_] [ss]). constructor; [apply chain_good, Cs | constructor].
+    - intros r. cbn [join]. split_lits. repeat lx1. rewrite Ps0 by reflexivity. rewrite g_colon by reflexivity.
+      repeat lx1. lx_done.
+    - intros suf. rewrite (gCase_eq Htab), (gBlock_eq Htab). reflexivity.
+    - rewrite (gCase_eq Htab), (gBlock_eq Htab). reflexivity.
+    - exists x. cbn [tclause].
+      replace (tkw (S "case") :: tstmt s0 ++ top (S ":") :: concat (map tstmt body))
+        with ((tkw (S "case") :: tstmt s0 ++ [top (S ":")]) ++ concat (map tstmt body))
+        by (cbn [app]; rewrite <- app_assoc; reflexivity).
+      split; [exact Cx|]. split; [exact Nx | exact Px].
+  Qed.
+
+  Lemma qc_type t ts body : Forall Qs body -> Qc (CType t ts body).
+  Proof.
+    intros IHb Ho its' Hd. cbn [clause_ok] in Ho. ok_split Ho. cbn [clause_items] in Hd.
+    rewrite (gCase_eq Htab), (gBlock_eq Htab) in Hd.
+    inversion Hd as [|? c1 ? r1 Hc1 H2]; subst. inversion H2 as [|? c2 ? r2 Hc2 H3]; subst. inversion H3; subst.
+    apply dec_flat_inv in Hc1. destruct Hc1 as (lh & -> & Hlh). apply dec_multi_inv in Hc2. destruct Hc2 as (lm & -> & Hlm).
+    assert (Hts : forallb ty_ok (t :: ts) = true) by (cbn [forallb]; apply andb_true_iff; split; assumption).
+    destruct (dec_tys (t :: ts) (all_Qt_tys _) Hts lh Hlh) as (xs & HF & HP).
+    rewrite <- (gCase_eq Htab), <- (gBlock_eq Htab).
+    destruct (clause_tail (gCase 0 lh) (S "case " ++ join comma xs ++ S ":")
+                (tkw (S "case") :: tcommas (map tty (t :: ts)) ++ [top (S ":")]) body lm) as (x & Cx & Nx & Px);
+      [| | | |exact IHb|assumption|exact Hlm|].
+    - apply (free_case cfg Htab _ _ HF).
+    - intros r. split_lits. repeat lx1. rewrite (Forall2_piece_join xs _ HP) by reflexivity.
+      rewrite g_colon by reflexivity. repeat lx1. lx_done.
+    - intros suf. rewrite (gCase_eq Htab), (gBlock_eq Htab). reflexivity.
+    - rewrite (gCase_eq Htab), (gBlock_eq Htab). reflexivity.
+    - exists x. cbn [tclause].
+      replace (tkw (S "case") :: tcommas (map tty (t :: ts)) ++ top (S ":") :: concat (map tstmt body))
+        with ((tkw (S "case") :: tcommas (map tty (t :: ts)) ++ [top (S ":")]) ++ concat (map tstmt body))
+        by (cbn [app]; rewrite <- app_assoc; reflexivity).
+      split; [exact Cx|]. split; [exact Nx | exact Px].
+  Qed.
+
   (* ---- all trees *)
   Theorem all_dec : (forall e, Qe e) /\ (forall s, Qs s) /\ (forall c, Qc c).
   Proof.
     exact (mini_ind Qe Qs Qc qe_id qe_int qe_str qe_bool qe_nil qe_un qe_bin qe_call qe_index qe_slice
-             qe_slice3 qe_sel qe_paren qe_comp qe_func qs_expr qs_assign qs_incdec qs_return qs_if qs_for
+             qe_slice3 qe_sel qe_paren qe_comp qe_keyed qe_func qe_assert qs_expr qs_assign qs_incdec qs_return qs_if qs_for
              qs_while qs_loop qs_range qs_switch qs_block qs_break qs_continue qs_go qs_defer qs_var
-             qc_case qc_default).
+             qs_labeled qs_goto qs_fallthrough qs_send qs_select qs_typeswitch qc_case qc_default qc_comm qc_type).
   Qed.
 
   Lemma all_Qs body : Forall Qs body.
@@ -1187,23 +1695,46 @@ Section Main.
 
   Lemma all_Qd d : Qd d.
   Proof.
-    destruct d as [name ps res body|specs|specs|name t]; intros Ho l' Hd; cbn [decl_ok] in Ho; cbn [bdecl] in Hd.
-    - ok_split Ho.
-      change ([kw (S "Func"); MiniGo.id name; bparams ps] ++ bresult res ++ [gBlock 1 (map (fun s => CStmt (bstmt s)) body)])
-        with (([kw (S "Func"); MiniGo.id name] ++ bparams ps :: bresult res) ++ [gBlock 1 (map (fun s => CStmt (bstmt s)) body)]) in Hd.
-      destruct (func_tail [kw (S "Func"); MiniGo.id name] [S "func"; name] ps res body) with (l' := l') as (bx & Cb & Pb);
-        [| |intros items'; destruct res; ctx_false|exact (all_Qs body)|assumption|exact Hd|].
-      + constructor; [apply (free_kw_text cfg _ _ (kw_Func Htab)); reflexivity|]. constructor; [apply free_id | constructor].
-      + rewrite (kw_Func Htab). reflexivity.
-      + eexists. split; [exact Cb|].
-        intros r Hr. cbn [tdecl]. destruct res as [t|]; cbn [result_texts app join topt opt_ok] in *;
-          rewrite <- ?app_assoc; repeat lx1; rewrite (lx_params ps ltac:(assumption)); repeat lx1;
-          try (rewrite (lx_ty t ltac:(assumption)) by reflexivity; repeat lx1); rewrite Pb; lx_done.
+    destruct d as [name ps res body|recv name ps res body|specs|specs|name t]; intros Ho l' Hd; cbn [decl_ok] in Ho; cbn [bdecl] in Hd.
+    - ok_split Ho. cbn [app] in Hd.
+      inversion Hd as [|? c1 ? l1 Hc1 Hd1]; subst. inversion Hd1 as [|? c0 ? l0 Hc0 Hd0]; subst.
+      inversion Hd0 as [|? c2 ? l2 Hc2 Hd2]; subst.
+      apply Forall2_app_inv_l in Hd2. destruct Hd2 as (lr & lb & Hlr & Hbl & ->).
+      rewrite (kw_Func Htab) in Hc1. apply dec_tok_inv in Hc1. subst c1. unfold MiniGo.id in Hc0. apply dec_tok_inv in Hc0. subst c0.
+      destruct (func_tail [kw (S "Func"); MiniGo.id name] [CTok (TkText (S "func")); CTok (TkId name)] [S "func"; name]
+                  ps res body (c2 :: lr) lb) as (px & rxs & bx & Cb & Pp & Pr & Pb);
+        [| |ctx3 res|assumption|assumption|exact (all_Qs body)|assumption|constructor; assumption|exact Hbl|].
+      + rewrite (kw_Func Htab). constructor; [constructor|]. constructor; [constructor | constructor].
+      + constructor; [apply free_tktext; reflexivity|]. constructor; [apply free_tkid | constructor].
+      + exists (S "func" ++ sp ++ name ++ sp ++ px ++ rtext rxs ++ sp ++ bx). split.
+        * eapply chain_eq; [exact Cb|]. rewrite func_text by discriminate. cbn [join]. rewrite <- !app_assoc. reflexivity.
+        * intros r Hr. cbn [tdecl]. rewrite <- !app_assoc. repeat lx1. rewrite Pp. rewrite Pr by reflexivity. repeat lx1.
+          rewrite Pb. lx_done.
+    - ok_split Ho. cbn [app] in Hd.
+      inversion Hd as [|? c1 ? l1 Hc1 Hd1]; subst. inversion Hd1 as [|? cr ? l3 Hcr Hd3]; subst.
+      inversion Hd3 as [|? c0 ? l0 Hc0 Hd0]; subst. inversion Hd0 as [|? c2 ? l2 Hc2 Hd2]; subst.
+      apply Forall2_app_inv_l in Hd2. destruct Hd2 as (lr & lb & Hlr & Hbl & ->).
+      rewrite (kw_Func Htab) in Hc1. apply dec_tok_inv in Hc1. subst c1. unfold MiniGo.id in Hc0. apply dec_tok_inv in Hc0. subst c0.
+      assert (Hrecv : forallb param_ok [recv] = true).
+      { cbn [forallb]. unfold param_ok, param_ok_with. apply andb_true_iff. split; [apply andb_true_iff; split; assumption | reflexivity]. }
+      destruct (dec_params_P [recv] (all_Qt_params [recv]) Hrecv cr Hcr) as (rx & Fr & Prx).
+      destruct (func_tail [kw (S "Func"); bparams [recv]; MiniGo.id name] [CTok (TkText (S "func")); cr; CTok (TkId name)]
+                  [S "func"; rx; name] ps res body (c2 :: lr) lb) as (px & rxs & bx & Cb & Pp & Pr & Pb);
+        [| |ctx3 res|assumption|assumption|exact (all_Qs body)|assumption|constructor; assumption|exact Hbl|].
+      + rewrite (kw_Func Htab). constructor; [constructor|]. constructor; [exact Hcr|]. constructor; [constructor | constructor].
+      + constructor; [apply free_tktext; reflexivity|]. constructor; [exact Fr|]. constructor; [apply free_tkid | constructor].
+      + exists (S "func" ++ sp ++ rx ++ sp ++ name ++ sp ++ px ++ rtext rxs ++ sp ++ bx). split.
+        * eapply chain_eq; [exact Cb|]. rewrite func_text by discriminate. cbn [join]. rewrite <- !app_assoc. reflexivity.
+        * intros r Hr. cbn [tdecl]. rewrite <- !app_assoc. repeat lx1. rewrite Prx. repeat lx1. rewrite Pp.
+          rewrite Pr by reflexivity. repeat lx1. rewrite Pb. lx_done.
     - exact (defs_dec _ (S "var") specs (kw_Var Htab) eq_refl eq_refl Ho l' Hd).
     - exact (defs_dec _ (S "const") specs (kw_Const Htab) eq_refl eq_refl Ho l' Hd).
-    - apply dec_flat_same in Hd; [subst l'|].
-      + exists (cdecl (DType name t)). split; [apply (decl_chain cfg Htab (DType name t)) | apply lx_decl; exact Ho].
-      + rewrite (kw_Type Htab). cbn [forallb flatc MiniGo.id]. rewrite bty_flat. reflexivity.
+    - ok_split Ho. rewrite (kw_Type Htab) in Hd. unfold MiniGo.id in Hd. dinv. uset (all_Qt t) t as (xt & Ct & Pt0 & _).
+      exists (S "type " ++ name ++ sp ++ xt). split.
+      + eapply chain_eq; [apply (chain_free cfg _ [S "type"; name; xt]); [|discriminate]|reflexivity].
+        constructor; [apply free_tktext; reflexivity|]. constructor; [apply free_tkid|].
+        constructor; [apply chain_operand, Ct | constructor].
+      + intros r Hr. cbn [tdecl]. split_lits. repeat lx1. rewrite Pt0 by exact Hr. lx_done.
   Qed.
 
   Lemma decls_R ds : forallb decl_ok ds = true -> Forall2 (R cfg) (map bdecl ds) (map tdecl ds).
@@ -1219,6 +1750,14 @@ Section Main.
   Proof.
     intros Ho Hd Hr. apply dec_stmt_inv in Hd. destruct Hd as (l' & -> & Hl).
     destruct (proj1 all_dec a Ho l' Hl) as (x & Cx & Px & _).
+    rewrite (render_of_chain cfg l' x Cx ctx t) in Hr. injection Hr as _ <-. apply piece_golex, Px.
+  Qed.
+
+  Theorem dec_tokens_type a c' ctx t t' s : ty_ok a = true -> dec (build_type a) c' ->
+    render cfg ctx t c' = Ok (t', s) -> golex s = Some (tty a).
+  Proof.
+    intros Ho Hd Hr. apply dec_stmt_inv in Hd. destruct Hd as (l' & -> & Hl).
+    destruct (all_Qt a Ho l' Hl) as (x & Cx & Px & _).
     rewrite (render_of_chain cfg l' x Cx ctx t) in Hr. injection Hr as _ <-. apply piece_golex, Px.
   Qed.
 
